@@ -127,6 +127,28 @@ PROPS = {
         "modelled": COMMON_MODELLED,
         "assumptions": ["source and destination are distinct objects (s.Transfer(s) does not terminate; outside the model)"],
     },
+    "C05": {
+        "lean": ["Stackage.Props.C05"],
+        "streams": [{"name": "eqpair", "quick": 3000, "thorough": 60000}, {"name": "equnit", "quick": 1500, "thorough": 30000}],
+        "rule": "eqpair: random trees (every kind, capacity, case-folding, nested stacks / conditions in native, alias, alias-with-String and pointer form, "
+                "operators incl. none and user-defined) whose leaves are drawn type-directed from ~70 Go types ([]int, [3]int, []string, []*int incl. nil "
+                "elements, map[string]int, structs with exported / embedded / private fields, **int, typed nils, funcs, chans, NaN, declared scalar types, "
+                "[]any, *any, uintptr ...); each tree is paired with an independently rebuilt copy (30%), with itself (same pointer) or with a copy carrying "
+                "exactly one point mutation: 60% at a position drawn uniformly from ALL positions of ALL leaves (scalar, slice/array element, map key/value, "
+                "element added/removed/swapped, slice capacity, private field), else a kind, capacity, keyword, operator, expression, sibling swap, element "
+                "added/removed/replaced; a.IsEqual(b) and b.IsEqual(a) are observed as eq / ne / PANIC. equnit: the same leaf pairs straight into valuesEqual. "
+                "non-trivial = not the self pair and at least one element in the tree",
+        "modelled": COMMON_MODELLED + ["float / complex values carried as the text Go prints plus a NaN flag", "channels by (type, id) identity, funcs by type",
+                                       "map iteration in list order (verdict is order-independent)"],
+        "assumptions": ["operands are independently built (no shared backing arrays); Stack/Condition values inside slice, map or struct leaves are outside the universe",
+                        "user Operator methods and EqualityPolicy closures are pure and do not panic"],
+        "level_text": "Lean 4 theorems over the model of IsEqual/valuesEqual for all values of the reflect universe EV: C05_iff (IsEqual = nil iff same description, "
+                      "on the property's domain), C05_refl, C05_symm, C05_point_mutation(_leaf) at any depth and position; C05_total is proved under the hypothesis "
+                      "that embedded struct fields on both sides have one visibility (C05_total_partial) and refuted without it (C05_total_refuted, known finding K-C05-1)",
+        "explanation": "S line: inside the domain the verdict of the independent specification sameDesc; outside it the specification only demands 'no panic' and the line "
+                       "repeats the model's verdict. Known findings K-C05-1 (mixed-visibility embedded fields panic) and K-C05-2 (a one-private-field struct equals any "
+                       "Stack/Condition on its right) are residual defects of the repaired code, tagged by the driver (C05.MixedEmbedded / C05.HandleLike).",
+    },
     "C04": {
         "lean": ["Stackage.Props.C04"],
         "streams": [{"name": "roundtrip", "quick": 3000, "thorough": 60000}],
@@ -312,6 +334,11 @@ def _c03(out):
     return " ; ".join(steps)
 
 
+def _c05(out):
+    """C05 names only: equal, not equal, panic"""
+    return re.sub(r"ne:[A-Za-z0-9?]+", "ne", out)
+
+
 def _c04(out):
     # the model does not compute IsEqual yet: Q is compared on the implementation against the specification only
     return re.sub(r" Qskip", " Qok", out) if "Qskip" in out else out
@@ -342,6 +369,7 @@ def _c20(out):
 
 
 PROJ = {
+    "C05": _c05,
     "C04": _c04,
     "C20": _c20,
     "C01": _keep("ret", "L", "I", "F", "B", "E"),
@@ -398,6 +426,8 @@ def nontrivial(pid, payload):
         turns = sec[2].split()
         blocks = [t for k, t in enumerate(turns) if k == 0 or turns[k - 1] != t]
         return len(sec[1].split(" / ")) >= 2 and len(blocks) > len(set(turns))
+    if pid == "C05":
+        return not payload.endswith("| self") and " [ ]" not in payload.split(" | ")[0][:12]
     if pid == "C15":
         return " [ ]" not in payload.split(" | ")[0]     # non-empty source
     if pid == "C12":
